@@ -483,6 +483,41 @@ Fixpoint walk (coll : list (string * nat)) (n : nat) (h : heap) (i : nat) (vis :
       end
   end.
 
+(* ---- resolve_aliases(implicit=False): resolve_module_aliases skips the aliases that are not exported; for the loop
+   that is the bit it already has for wildcard pseudo-members.  [mark_skip ids h] raises it on the listed nodes. ---- *)
+Definition skip_node (n : node) : node :=
+  match n with NAlias p tp t pa _ => NAlias p tp t pa true | _ => n end.
+Fixpoint mark_from (ids : list nat) (k : nat) (h : heap) : heap :=
+  match h with
+  | [] => []
+  | n :: r => (if mem_nat k ids then skip_node n else n) :: mark_from ids (S k) r
+  end.
+Definition mark_skip (ids : list nat) (h : heap) : heap := mark_from ids 0 h.
+
+(* ---- the outer loop of resolve_aliases WITH side-loading, over an abstract world: one pass over the collection
+   returns (some alias got resolved, the unresolved set, the collection grew).
+   `while unresolved and (progress or unresolved != prev_unresolved)` with
+   `progress = bool(resolved) or len(collection) != loaded_modules`. ---- *)
+Section ExtLoop.
+  Variable W : Type.
+  Variable pass : W -> W * (bool * list string * bool).
+
+  Fixpoint ext_loop (k : nat) (w : W) (prev : list string) (it : nat) : option (W * list string * nat) :=
+    match k with
+    | 0 => None
+    | S k' =>
+        let '(w', (rs, u, g)) := pass w in
+        match u with
+        | [] => Some (w', u, S it)
+        | _ => if negb (rs || g) && set_eq u prev then Some (w', u, S it) else ext_loop k' w' u (S it)
+        end
+    end.
+End ExtLoop.
+
+(* replay device for the correspondence: the world is the list of pass results still to come *)
+Definition pass_list (w : list (bool * list string * bool)) : list (bool * list string * bool) * (bool * list string * bool) :=
+  match w with [] => ([], (false, [], false)) | x :: r => (r, x) end.
+
 (* ---- s-expression interface ---- *)
 Definition dec_ref (s : sexp) : option (option ref) :=
   match s with
@@ -642,8 +677,33 @@ Definition enc_failed_but_changed (coll : list (string * nat)) (h : heap) : sexp
                             | _ => []
                             end) (alias_ids_from h 0)).
 
+Definition dec_pass (s : sexp) : option (bool * list string * bool) :=
+  match s with
+  | SList [rs; u; g] => do rs' <- as_bool rs; do u' <- as_list_of as_str u; do g' <- as_bool g; Some (rs', u', g')
+  | _ => None
+  end.
+
 Definition run_C06 (s : sexp) : sexp :=
   match s with
+  | SList [SStr "loop"; ps] =>
+      match as_list_of dec_pass ps with
+      | Some l =>
+          match ext_loop _ pass_list (S (List.length l)) l [] 0 with
+          | Some (rest, u, it) => SList [SStr "loop"; SList (map SStr u); of_nat it; of_nat (List.length rest)]
+          | None => SList [SStr "loop-not-ended"]
+          end
+      | None => bad_input
+      end
+  | SList [SStr "run"; c; ns; SList ops; skip] =>
+      match as_list_of dec_member c, as_list_of dec_node ns, as_list_of as_nat skip with
+      | Some coll, Some h0, Some ids =>
+          let h := mark_skip ids h0 in
+          SList (SList [SStr "class"; of_bool (wf coll h); of_bool (no_passed h); of_bool (direct coll h);
+                        of_bool (chains_complete h); of_bool (unique_paths h); of_bool (targets_complete h); enc_walks coll h;
+                        enc_failed_but_changed coll h]
+                 :: enc_state h :: run_ops coll h h ops)
+      | _, _, _ => bad_input
+      end
   | SList [SStr "run"; c; ns; SList ops] =>
       match as_list_of dec_member c, as_list_of dec_node ns with
       | Some coll, Some h =>
